@@ -677,7 +677,24 @@ def standard_check(mod, tier, seed, replay=None):
     else:
         for n in names:
             rep.oblige('theorem:' + n, False, 'not checked: make failed')
-    closure = coq_closure([prop_file] + ['theories/%s.v' % m.replace('.', '/') for m in ([run_module] if run_module else []) + list(getattr(mod, 'COQ_EXTRA', []))])
+    # further files of pinned statements (cross-property composition theorems), checked exactly like Properties/<id>.v
+    extra_props = list(getattr(mod, 'EXTRA_PROPERTY_FILES', []))
+    for xf in extra_props:
+        okx, outx = coq_make([xf + 'o'])
+        rep.oblige('coq:make:' + xf, okx, outx[-3000:] if not okx else xf + 'o')
+        xnames = pinned_theorems(xf)
+        want = getattr(mod, 'EXTRA_THEOREMS', {}).get(xf)
+        if want is not None:
+            miss = [t for t in want if t not in xnames]
+            rep.oblige('pinned-theorems-present:' + xf, not miss, 'missing: %s' % miss if miss else '%d pinned' % len(xnames))
+        if okx:
+            _, _, resx = coq_print_assumptions(xf, [(n, allow.get(n, [])) for n in xnames])
+            for n, o, d in resx:
+                rep.oblige('theorem:' + n, o, d)
+        else:
+            for n in xnames:
+                rep.oblige('theorem:' + n, False, 'not checked: make failed')
+    closure = coq_closure([prop_file] + extra_props + ['theories/%s.v' % m.replace('.', '/') for m in ([run_module] if run_module else []) + list(getattr(mod, 'COQ_EXTRA', []))])
     hits = forbidden_words(None if tier == 'thorough' else closure)
     rep.oblige('no-Admitted/Axiom/Parameter/unsafe-flags', not hits,
                '; '.join(hits[:10]) if hits else 'scanned %s' % ('whole development' if tier == 'thorough' else '%d files in the dependency closure' % len(closure)))
